@@ -33,18 +33,13 @@ func dischargeNE(c *Ctx, p *core.Prog, o *eng.NEObligation) (bool, string) {
 // site passes a key of Classifier.docs, and every key of that map comes from generateDocName,
 // whose format has >= k+1 separator-delimited components.
 func docsKeyProvenance(c *Ctx, p *core.Prog, o *eng.NEObligation) (bool, string) {
-	call, ok := o.Container.(*ssa.Call)
-	if !ok || core.StaticCalleeName(&call.Call) != "strings.Split" {
+	keyArg, ok := asKeySplit(o.Container, 0)
+	if !ok {
 		return false, ""
 	}
-	keyArg := core.Unspill(call.Call.Args[0])
 	prm, isPrm := keyArg.(*ssa.Parameter)
 	comps, sepOK := docKeyComponents(p)
 	if !sepOK || int64(comps) < o.Need {
-		return false, ""
-	}
-	// the separator used by the decoder must be the one used by generateDocName
-	if !isPathSepString(call.Call.Args[1]) {
 		return false, ""
 	}
 	if !isPrm {
@@ -65,7 +60,8 @@ func isPathSepString(v ssa.Value) bool {
 	case *ssa.Call:
 		if core.StaticCalleeName(&x.Call) == "fmt.Sprintf" {
 			if f, ok := core.ConstString(x.Call.Args[0]); ok && f == "%c" {
-				return true // argument checked by R03.6
+				els := varargElems(x.Call.Args[1])
+				return len(els) == 1 && isPathSepConst(unwrapIface(els[0]))
 			}
 		}
 	case *ssa.Const:
@@ -154,10 +150,9 @@ func tracesToDocsKey(p *core.Prog, fn *ssa.Function, prm *ssa.Parameter, depth i
 	return true, fmt.Sprintf("%d call sites of %s", n, core.ShortFn(fn))
 }
 
-// isDocsKey: v is the key of a range over Classifier.docs, or over a local map all of whose
-// updates use such a key.
+// isDocsKey: v is the key of a range over a map whose keys are keys of Classifier.docs.
 func isDocsKey(v ssa.Value, depth int) bool {
-	if depth > 3 {
+	if depth > 4 {
 		return false
 	}
 	ex, ok := v.(*ssa.Extract)
@@ -172,12 +167,24 @@ func isDocsKey(v ssa.Value, depth int) bool {
 	if !ok {
 		return false
 	}
-	if isClsField(rg.X, func(r *v2Roles) string { return r.docs }) {
+	return mapOfDocsKeys(rg.X, depth)
+}
+
+// mapOfDocsKeys: every key of the map value is a key of Classifier.docs: the docs field itself, a local
+// map all of whose updates use such keys, a parameter that receives such a map at every call site, or
+// the result of a function all of whose returns are such maps.
+func mapOfDocsKeys(m ssa.Value, depth int) bool {
+	if depth > 4 {
+		return false
+	}
+	m = core.Unspill(m)
+	if isClsField(m, func(r *v2Roles) string { return r.docs }) {
 		return true
 	}
-	if mm, ok := rg.X.(*ssa.MakeMap); ok {
+	switch x := m.(type) {
+	case *ssa.MakeMap:
 		n := 0
-		for _, r := range *mm.Referrers() {
+		for _, r := range *x.Referrers() {
 			if mu, ok := r.(*ssa.MapUpdate); ok {
 				n++
 				if !isDocsKey(mu.Key, depth+1) {
@@ -186,6 +193,45 @@ func isDocsKey(v ssa.Value, depth int) bool {
 			}
 		}
 		return n > 0
+	case *ssa.Parameter:
+		fn := x.Parent()
+		pr := progOf[fn.Prog]
+		if pr == nil {
+			return false
+		}
+		n := 0
+		for _, t := range callSiteTuples(pr, []ssa.Value{x}) {
+			if t[0] == ssa.Value(x) {
+				return false
+			}
+			n++
+			if !mapOfDocsKeys(t[0], depth+1) {
+				return false
+			}
+		}
+		return n > 0
+	case *ssa.Call:
+		f := x.Call.StaticCallee()
+		if f == nil || !core.InRepo(f) || len(f.Blocks) == 0 {
+			return false
+		}
+		n := 0
+		for _, b := range f.Blocks {
+			if ret, ok := b.Instrs[len(b.Instrs)-1].(*ssa.Return); ok && len(ret.Results) >= 1 {
+				n++
+				if !mapOfDocsKeys(ret.Results[0], depth+1) {
+					return false
+				}
+			}
+		}
+		return n > 0
+	case *ssa.Phi:
+		for _, e := range x.Edges {
+			if !mapOfDocsKeys(e, depth+1) {
+				return false
+			}
+		}
+		return true
 	}
 	return false
 }
